@@ -39,12 +39,16 @@ func (w *evmWorld) randomTx() (from, recip *evmAcct, s EthTxSpec, tag string) {
 		tag = "transfer"
 		to = []*evmAcct{w.byName("sink"), w.byName("eoa0"), w.byName("eoa2"), from, w.byName("cStop")}[rng.Pick(4, 2, 2, 1, 2)]
 	case 1: // contract call
-		names := []string{"cRevert", "cInvalid", "cLoop", "cStop", "cStore", "cLog"}
-		nm := names[rng.Pick(3, 2, 2, 2, 3, 2)]
+		names := []string{"cRevert", "cInvalid", "cLoop", "cStop", "cStore", "cLog", "cBranch"}
+		nm := names[rng.Pick(3, 2, 2, 2, 3, 2, 5)]
 		tag = "call:" + nm
 		to = w.byName(nm)
 		if nm == "cStore" || nm == "cLog" {
 			s.Data = common.LeftPadBytes([]byte{byte(rng.Intn(3))}, 32) // 0 clears the slot (refund counter)
+		}
+		if nm == "cBranch" { // outcome and gas depend on what earlier txs left in its storage (see rtBranch)
+			s.Data = [][]byte{nil, {1}, {1, 2}, common.LeftPadBytes([]byte{byte(rng.Intn(3))}, 32)}[rng.Pick(3, 3, 2, 4)]
+			tag = fmt.Sprintf("call:cBranch:%d", len(s.Data))
 		}
 	case 2: // contract creation
 		inits := [][]byte{initCodeFor(rtStop), rtRevert, rtInvalid, initCodeFor(rtStore), rtLoop}
@@ -159,6 +163,7 @@ func domEvmFee(env *Env) error {
 	n := env.Int("histories", 4)
 	txs := env.Int("txs", 80)
 	directed := env.Int("directed", 1)
+	multi := env.Int("multi", 1)
 	rng := NewRNG(env.Report.Seed)
 	env.Report.Domain = "evmfee"
 	mults := []string{"0.5", "0", "1", "0.333333333333333333", "0.999999999999999999", "0.5", "0.000000000000000001"}
@@ -171,6 +176,10 @@ func domEvmFee(env *Env) error {
 		}
 		maxGas := []int64{-1, 1000000, 400000, -1}[rng.Intn(4)]
 		w, err := newEvmWorld(env, rng, env.Report.Seed*1000+uint64(hi), mult, minPrice, baseFee, maxGas, hi%2 == 1)
+		if err == errEvmSetupViolated {
+			env.Report.Histories++
+			continue
+		}
 		if err != nil {
 			return fmt.Errorf("history %d: %w", hi, err)
 		}
@@ -195,6 +204,11 @@ func domEvmFee(env *Env) error {
 			if !w.nextBlock(time.Duration(1+rng.Intn(5)) * time.Second) {
 				break
 			}
+			// now and then one cosmos tx carrying several Ethereum messages, as the first tx of the fresh block
+			if multi != 0 && rng.Chance(1, 4) {
+				w.deliverMulti(w.randomMulti())
+				done++
+			}
 		}
 		env.Report.Histories++
 		if hi < 2 {
@@ -216,6 +230,9 @@ func evmDirected(env *Env, rng *RNG) error {
 	// D1: deliver-time admission does not compare balance with value + fee
 	{
 		w, err := newEvmWorld(env, rng, seed, half, sdk.ZeroDec(), 1000000000, -1, false)
+		if err == errEvmSetupViolated {
+			return nil
+		}
 		if err != nil {
 			return err
 		}
@@ -246,6 +263,9 @@ func evmDirected(env *Env, rng *RNG) error {
 	// D2: block gas meter overflow after execution: fee kept in full, reported gas_used is the EVM figure
 	{
 		w, err := newEvmWorld(env, rng, seed+1, half, sdk.ZeroDec(), 1000000000, 400000, false)
+		if err == errEvmSetupViolated {
+			return nil
+		}
 		if err != nil {
 			return err
 		}
@@ -265,6 +285,9 @@ func evmDirected(env *Env, rng *RNG) error {
 	// D3: precompile state written in an inner frame that reverts (gateway is a contract)
 	{
 		w, err := newEvmWorld(env, rng, seed+2, half, sdk.ZeroDec(), 1000000000, -1, true)
+		if err == errEvmSetupViolated {
+			return nil
+		}
 		if err != nil {
 			return err
 		}
@@ -301,6 +324,44 @@ func evmDirected(env *Env, rng *RNG) error {
 					env.Violate("C19.inner-revert", "inner-revert-precompile-state",
 						fmt.Sprintf("a depositLST made through the gateway in an inner call frame that REVERTed left its restaking-state writes in place (outer tx succeeded): staker deposit %s -> %s", depB, depositOf()), w.hist)
 				}
+			}
+		}
+		env.Report.Histories++
+	}
+	// D4: a contract creation followed by another message of the same sender in one cosmos tx: ApplyMessageWithConfig
+	// resets the sender's nonce to msg.Nonce()+1 after evm.Create, discarding the increments the ante handler made for
+	// the later messages; the later message's nonce is then accepted a second time
+	{
+		w, err := newEvmWorld(env, rng, seed+3, half, sdk.ZeroDec(), 1000000000, -1, false)
+		if err == errEvmSetupViolated {
+			return nil
+		}
+		if err != nil {
+			return err
+		}
+		w.directed = true
+		from := w.byName("eoa0")
+		sink := w.byName("sink")
+		a := sink.addr
+		price := evmBigOf(2000000000)
+		n0 := w.seq(from)
+		created := w.add("createdD4", crypto.CreateAddress(from.addr, n0), nil)
+		w.syncAcct(created)
+		parts := []evmPart{
+			{from: from, recip: created, kind: "create", s: EthTxSpec{Type: 0, Nonce: n0, GasLimit: 150000, FeeCap: price, Value: new(big.Int), Data: initCodeFor(rtStop), Sign: true}},
+			{from: from, recip: sink, kind: "transfer", s: EthTxSpec{Type: 0, Nonce: n0 + 1, GasLimit: 21000, FeeCap: price, Value: evmBigOf(1000), To: &a, Sign: true}},
+		}
+		sinkB := w.bal(sink)
+		w.deliverMulti(parts)
+		env.Outcome(fmt.Sprintf("directed:D4 nonce %d -> %d after 2 messages", n0, w.seq(from)))
+		if w.seq(from) == n0+1 {
+			// the very same signed transfer (nonce n0+1), on its own
+			r := w.deliver(from, sink, parts[1].s, "directed:batch-msg-again")
+			env.Eval("C19.nonce")
+			env.Outcome("directed:D4 replay=" + r.class)
+			if r.class == "ok" {
+				env.Violate("C19.nonce", "nonce-batch-create", fmt.Sprintf("the transfer with nonce %d was included in a cosmos tx behind a contract creation of the same sender and then included AGAIN on its own (same signed message): the recipient received %s for one signature, the sender's nonce was %d after two included transactions",
+					n0+1, new(big.Int).Sub(w.bal(sink), sinkB), n0+1), w.hist)
 			}
 		}
 		env.Report.Histories++
